@@ -32,6 +32,7 @@ type World struct {
 	LoadS    float64
 	SSAS     float64
 	Promoted int // captured locals promoted to registers (mem2reg.go)
+	Renamed  []string // unexported helpers recognised under a new name (renames.go)
 	NFuncs   int
 	funcsMod []*ssa.Function // all functions (incl. anonymous) of production module packages
 	cg       *CallGraph
@@ -134,6 +135,7 @@ func LoadWorld(repo, tier string) (*World, error) {
 	}
 	w.SSAS = time.Since(t1).Seconds()
 	w.collectFuncs()
+	w.resolveRenames()
 	// register promotion of locals that are only *read* by function literals (mem2reg.go): whether a logging or
 	// telemetry closure mentions a variable must not change what the rules see of the enclosing function
 	if os.Getenv("C4E_NOPROMOTE") == "" {
@@ -269,6 +271,9 @@ func (w *World) TPkg(rel string) *packages.Package {
 // Func resolves "x/cfeminter/keeper.Keeper.Mint" or "x/cfeminter.BeginBlocker" (an anchor).
 // It returns nil when the anchor does not resolve; callers must report that as undecided.
 func (w *World) Func(anchor string) *ssa.Function {
+	if f, ok := renamedFrom[anchor]; ok {
+		return f
+	}
 	i := strings.LastIndex(anchor, "/")
 	rest := anchor[i+1:]
 	parts := strings.Split(rest, ".")
@@ -345,6 +350,19 @@ func funcName(f *ssa.Function) string {
 	if f == nil {
 		return "<nil>"
 	}
+	if old, ok := renamedTo[f]; ok {
+		return old // a renamed unexported helper keeps its reviewed name inside the checker (renames.go)
+	}
+	if p := f.Parent(); p != nil {
+		if _, ok := renamedTo[p]; ok {
+			// a function literal of a renamed helper: "<old name>$n"
+			return funcName(p) + strings.TrimPrefix(rawFuncName(f), rawFuncName(p))
+		}
+	}
+	return rawFuncName(f)
+}
+
+func rawFuncName(f *ssa.Function) string {
 	s := f.String()
 	s = strings.ReplaceAll(s, modPath+"/", "")
 	s = strings.ReplaceAll(s, "(*", "")
